@@ -190,11 +190,20 @@ use vstd::std_specs::ops::*;
 pub broadcast axiom fn ax_string_add_assign_req<'a>(s: String, rhs: &'a str)
     ensures #[trigger] <String as AddAssignSpec<&'a str>>::add_assign_req(&s, rhs);
 
+// String += &str (std): the result is the concatenation (used only where a proof needs the text or its length: group string_add)
+pub broadcast axiom fn ax_string_add_assign_obeys<'a>()
+    ensures #[trigger] <String as AddAssignSpec<&'a str>>::obeys_add_assign_spec();
+pub broadcast axiom fn ax_string_add_assign_spec<'a>(s: String, rhs: &'a str)
+    ensures (#[trigger] <String as AddAssignSpec<&'a str>>::add_assign_spec(&s, rhs))@ == s@ + rhs@;
+pub broadcast group string_add { ax_string_add_assign_req, ax_string_add_assign_obeys, ax_string_add_assign_spec }
+
 // `E.parse::<usize>().unwrap()` (rule R18; FromStr is not declared to Verus): panics unless the text is a decimal usize
 pub uninterp spec fn is_usize_text(s: Seq<char>) -> bool;
+pub uninterp spec fn usize_of_text(s: Seq<char>) -> usize;
 #[verifier::external_body]
 pub fn verif_parse_usize_unwrap(s: &str) -> (r: usize)
     requires is_usize_text(s@)
+    ensures r == usize_of_text(s@)
 { s.parse::<usize>().unwrap() }
 
 // HashSet::is_disjoint (std): no common element
